@@ -24,3 +24,33 @@ impl<F> Compiler<&'static str, F> {
         self.errs.len()
     }
 }
+#[cfg(kani)]
+impl<F> Compiler<&'static str, F> {
+    /// append a top-level definition `name/arity` with term id `id` to module `mid` (creating the
+    /// modules up to `mid`), tail-calling itself iff `self_rec` - the shape `def_post` stores
+    pub(crate) fn verif_push_def(&mut self, mid: usize, name: &'static str, arity: usize, id: usize, self_rec: bool) {
+        while self.mod_map.len() <= mid {
+            self.mod_map.push(Vec::new());
+        }
+        let args: Box<[Arg]> = (0..arity).map(|_| Arg::Fun(())).collect();
+        let tr = if self_rec { Tr::from([TermId(id)]) } else { Tr::new() };
+        self.mod_map[mid].push((Sig { name, args }, TermId(id), tr));
+    }
+    pub(crate) fn verif_call_mod_id(&self, mid: usize, name: &'static str, args: &[TermId]) -> Option<Term> {
+        self.call_mod_id(mid, name, args)
+    }
+}
+#[cfg(kani)]
+impl Term {
+    /// (definition id, number of arguments, variables to skip, call type as 0 Inline / 1 CatchOne / 2 other)
+    pub(crate) fn verif_as_call_def(&self) -> Option<(usize, usize, usize, u8)> {
+        match self {
+            Term::CallDef(id, args, skip, typ) => Some((id.0, args.len(), *skip, match typ {
+                CallType::Inline => 0,
+                CallType::CatchOne => 1,
+                _ => 2,
+            })),
+            _ => None,
+        }
+    }
+}
